@@ -309,3 +309,57 @@ func verif_C16_sendmail() {
 	verifAssert(code(e2) == want[idx], "C16.sendmail-reports-the-refusal")
 	verifReach("C16.sendmail-end")
 }
+
+// verif_C16_cut: the client's octets reach the server cut at an ARBITRARY
+// offset (and octet by octet). The body is two lines, the second starting with
+// a dot, with two arbitrary octets: "<x> CRLF . <y> CRLF" - so that a cut can
+// fall between CR and LF in front of a dot-stuffed line and in front of the end
+// marker. The backend reads refNormalize(body) whatever the cut.
+func verif_C16_cut() {
+	x, y := nondetByte(), nondetByte()
+	assume(x != '\r' && x != '\n' && y != '\r' && y != '\n')
+	body := []byte{x, '\r', '\n', '.', y, '\r', '\n'}
+	lmtp := nondetBool()
+	c, vc := verifClient("250 2.0.0 ok\r\n250 2.0.0 ok\r\n354 go\r\n250 2.0.0 ok\r\n", nil)
+	c.lmtp = lmtp
+	verifAssert(c.Mail("s@v", nil) == nil && c.Rcpt("r@v", nil) == nil, "C16.cut-envelope-accepted")
+	w, err := c.Data()
+	verifAssert(err == nil, "C16.cut-data-started")
+	if err != nil {
+		return
+	}
+	w.Write(body)
+	verifAssert(w.Close() == nil, "C16.cut-close")
+	var got []byte
+	var rerr error
+	be := &vbackend{}
+	be.dataFn = func(_ *vsession, r io.Reader) error {
+		got, rerr = verifReadAll(r, 3)
+		if rerr == io.EOF {
+			return nil
+		}
+		return rerr
+	}
+	s, _ := verifServer(be)
+	s.LMTP = lmtp
+	hello := "EHLO c\r\n"
+	if lmtp {
+		hello = "LHLO c\r\n"
+	}
+	in := append([]byte(hello), vc.out...)
+	in = append(in, "MAIL FROM:<marker@v>\r\n"...)
+	svc := &vconn{in: in, final: io.EOF}
+	if verifChoice(8) == 0 {
+		svc.seg = 1
+	} else {
+		svc.cuts = []int{nondetInt(len(hello), len(in)-1)}
+	}
+	sconn := newConn(svc, s)
+	s.handleConn(sconn)
+	verifSettle()
+	verifObserve("c16cut", x, y, lmtp, len(got), rerr == io.EOF)
+	verifAssert(rerr == io.EOF, "C16.cut-server-sees-complete-message")
+	verifAssert(string(got) == string(refNormalize(body)), "C16.cut-body-arrives-normalised")
+	verifAssert(be.find("Mail", "marker@v") >= 0 && be.count("Mail") == 2, "C16.cut-nothing-of-the-body-executed")
+	verifReach("C16.cut-end")
+}
